@@ -12,9 +12,10 @@ PROP = {
         "as C04",
         "DDL inside the rolled-back transaction (created / dropped objects) is C15's part of this property; the catalog is static here",
     ],
-    "partial": "abort_erases at history level is proved for a session none of whose transactions commits (abort_erases_partial); the "
-               "statement for a single non-committing transaction of a session that also commits others (abort_erases_statement) is "
-               "stated, not proved. The store-level theorems (abort_erases_store, abort_erases_store_fresh) are unrestricted.",
+    "partial": "abort_erases at history level covers transactions ended by ROLLBACK, a session drop or a following begin "
+               "(abort_erases: one such transaction of a session that may commit others before and after; abort_erases_partial: a "
+               "session that never commits). A transaction whose COMMIT is refused is covered by the store-level theorems only "
+               "(abort_erases_store, abort_erases_store_fresh, unrestricted), not by a history-level one.",
     "trusted": ["one history is executed from a single thread"],
 }
 
